@@ -286,8 +286,7 @@ func (ex *Exec) applyContract(fr *Frame, st *State, fc *FuncContract, names []st
 	// preconditions
 	ex.callOrd[calleeName]++
 	for _, cl := range fc.Requires {
-		env := mkEnv(st, st)
-		g, sk := env.evalGoalSkolem(cl.Expr)
+		g, sk := mkEnv(st, st).evalGoalSkolem(cl.Expr)
 		ex.instantiateHyps(sk)
 		lbl := calleeName
 		if cl.Label != "" {
